@@ -266,7 +266,7 @@ MUTANTS += [
     M("Samples.to_namespace hands over the source dtype", _S, "dtype = convert_dtype(self.dtype, xp)\n        return self.__class__(\n            x=asarray(self.x, xp, dtype=dtype),", "dtype = self.dtype\n        return self.__class__(\n            x=asarray(self.x, xp, dtype=dtype),", ("C15.dtype", "C15.asarray")),
     M("SMCSamples.to_namespace loses beta", _S, "samples = super().to_namespace(xp, dtype=dtype)\n        samples.beta = self.beta\n", "samples = super().to_namespace(xp, dtype=dtype)\n", "C15.carry"),
     M("zuko log_prob with autograd", "src/aspire/flows/torch/flows.py", "with torch.no_grad():\n            x_prime, log_abs_det_jacobian = self.rescale(x)\n            log_prob = self._flow().log_prob(x_prime) + log_abs_det_jacobian", "if True:\n            x_prime, log_abs_det_jacobian = self.rescale(x)\n            log_prob = self._flow().log_prob(x_prime) + log_abs_det_jacobian", "C15.grad"),
-    M("minipcn samples without dtype", "src/aspire/samplers/mcmc.py", "x, xp=self.xp, parameters=self.parameters, dtype=self.dtype", "x, xp=self.xp, parameters=self.parameters", "C15.pop"),
+    M("minipcn samples without dtype", "src/aspire/samplers/mcmc.py", "x, xp=self.xp, parameters=self.parameters, dtype=self.dtype", "x, xp=self.xp, parameters=self.parameters", "C15.pop", within="MiniPCN.sample"),
 ]
 NEUTRALS = [
     M("to_namespace keyword order", _S, "xp=xp,\n            device=self.device,\n            dtype=dtype,", "dtype=dtype,\n            xp=xp,\n            device=self.device,"),
